@@ -105,6 +105,15 @@ class Analyzer:
         out.discard(mod)
         self.imports[mod] = sorted(out)
 
+    @staticmethod
+    def is_buffer_ctor(v):
+        if isinstance(v, ast.Call):
+            f = v.func
+            name = f.id if isinstance(f, ast.Name) else (f.attr if isinstance(f, ast.Attribute) else "")
+            if name in ("bytearray", "memoryview", "array", "create_string_buffer", "mmap", "BytesIO", "StringIO", "Lock", "RLock", "local", "Semaphore", "Condition", "Event"):
+                return True
+        return False
+
     def scan_module(self, mod, tree):
         names = set()
         for node in tree.body:
@@ -115,6 +124,10 @@ class Analyzer:
                         names.add(t.id)
                         if self.is_mutable_ctor(node.value):
                             self.mutable_globals.append(f"{mod}.{t.id}")
+                        if self.is_buffer_ctor(node.value):
+                            # a module-level byte buffer has one use: to be written into by the functions of the module (update_into,
+                            # readinto, slice assignment through a view ...) - shared state whatever the call that fills it looks like
+                            self.module_writes.append(f"{mod}:module-level work buffer {t.id} = {ast.unparse(node.value)[:40]}")
                     elif isinstance(t, (ast.Subscript, ast.Attribute)):
                         b, _ = base_name(t)
                         self.module_writes.append(f"{mod}:{ast.unparse(t)}")
@@ -142,6 +155,8 @@ class Analyzer:
                                 cattrs.add(t.id)
                                 if sub.value is not None and self.is_mutable_ctor(sub.value):
                                     self.mutable_globals.append(f"{mod}.{node.name}.{t.id}")
+                                if sub.value is not None and self.is_buffer_ctor(sub.value):
+                                    self.module_writes.append(f"{mod}:class-level work buffer {node.name}.{t.id} = {ast.unparse(sub.value)[:40]}")
                     elif isinstance(sub, ast.FunctionDef):
                         self.add_fn(mod, node.name, sub)
                 self.class_attrs[(mod, node.name)] = cattrs
